@@ -50,7 +50,7 @@ def run_one(sid, tier, inplace, extra_props):
         res["error"] = "patch does not apply: " + (p.stdout + p.stderr)[-500:]
         return res
     try:
-        env = dict(os.environ, UNYT_REPO=tree, PYTHONPATH=tree)
+        env = dict(os.environ, UNYT_REPO=tree, PYTHONPATH=tree, VERIF_EVIDENCE_DIR=os.path.join(VERIF, "build", "seeded_evidence"))
         demo = os.path.join(d, "demo.py")
         if os.path.exists(demo):
             r = sh([PY, "-W", "ignore", demo], cwd=tree, env=env, timeout=600)
